@@ -32,6 +32,12 @@ pub enum Op {
     Reset,
     /// drop the manager, create a new one on the same directory, run_cycle
     Restart { limit: u64, avg: u64 },
+    /// touch `n` fresh, distinct keys in a row (tag distinguishes one fill from another): the table is FULL of
+    /// active entries for whatever comes next (checkpoint, reload, eviction to a target, run_cycle)
+    Fill { n: u32, tag: u8 },
+    /// drop the manager and create a new one on the same directory WITHOUT loading anything: a cold manager
+    /// (generation 1) next to whatever checkpoints its predecessor left
+    ColdRestart,
 }
 
 #[derive(Clone, Debug, Serialize, Deserialize)]
@@ -192,6 +198,8 @@ fn op_kind(op: &Op) -> &'static str {
         Op::Shutdown => "shutdown",
         Op::Reset => "reset",
         Op::Restart { .. } => "restart",
+        Op::Fill { .. } => "fill",
+        Op::ColdRestart => "cold_restart",
     }
 }
 
@@ -208,7 +216,7 @@ impl Scenario for Lru {
         "exploration"
     }
     fn rule(&self) -> &'static str {
-        "Enumerated arm first: run indices 0..N of every batch are, in order and independent of the seed, ALL histories of length 1..L (quick L=3: 15,657 cases; thorough L=5: 4,525,791 cases) over a 17-symbol alphabet {touch k0-k3, remove k0-k3, evict_tail, evict_to_target(1 or 2 entries), bump_generation, checkpoint, load latest, run_cycle, restart, reset} for capacities 1, 2, 3 and 4 non-zero keys (counter enumerated_histories). Then seeded histories (1-30 ops, mostly 3-12) over touch/remove/evict_tail/evict_to_target/bump_generation/checkpoint_to_disk/load_from_disk/run_cycle/shutdown/reset/restart on the real LruManager with real checkpoint files in a per-run tmpfs sandbox; capacity 1-4 (a few up to 64; one seeded run in 400 with a table of 1 000 ... 1 000 000 slots, whose checkpoint file runs to 20 MiB), 4-6 keys, the all-zero key in ~30% of runs; run_cycle limits from 0 / one entry / capacity-1 entries up to (one cycle in three) 2^32 average-sized entries and just above, powers of two up to 2^62, u64::MAX, average sizes up to 2^32. After EVERY op len/contains/for_each_entry order are compared with a textbook LRU. A run is non-trivial if it executed >= 2 state-changing ops; distinct = distinct hash of (config, ops, observed results)."
+        "Enumerated arm first: run indices 0..N of every batch are, in order and independent of the seed, ALL histories of length 1..L (quick L=3: 15,657 cases; thorough L=5: 4,525,791 cases) over a 17-symbol alphabet {touch k0-k3, remove k0-k3, evict_tail, evict_to_target(1 or 2 entries), bump_generation, checkpoint, load latest, run_cycle, restart, reset} for capacities 1, 2, 3 and 4 non-zero keys (counter enumerated_histories). Then seeded histories (1-30 ops, mostly 3-12) over touch/remove/evict_tail/evict_to_target/bump_generation/checkpoint_to_disk/load_from_disk/run_cycle/shutdown/reset/restart (+ in one run in five a FILL = touches of capacity-1 ... 2 x capacity fresh keys in the first half of the history, in one run in twelve a COLD restart = a new manager that loads nothing) on the real LruManager with real checkpoint files in a per-run tmpfs sandbox; capacity 1-4 (a few up to 64; one seeded run in 400 with a table of 1 000 ... 1 000 000 slots, whose checkpoint file runs to 20 MiB), 4-6 keys, the all-zero key in ~30% of runs; run_cycle limits from 0 / one entry / capacity-1 entries up to (one cycle in three) 2^32 average-sized entries and just above, powers of two up to 2^62, u64::MAX, average sizes up to 2^32. After EVERY op len/contains/for_each_entry order are compared with a textbook LRU. A run is non-trivial if it executed >= 2 state-changing ops; distinct = distinct hash of (config, ops, observed results)."
     }
     fn assumptions(&self) -> Vec<&'static str> {
         vec![
@@ -350,6 +358,18 @@ impl Scenario for Lru {
             };
             ops.push(op);
         }
+        // drawn after the history: one run in five gets a fill somewhere in its first half, one in twelve a cold
+        // restart somewhere
+        let mut ops = ops;
+        if rng.chance(1, 5) {
+            let n = *rng.pick(&[capacity.saturating_sub(1).max(1), capacity, capacity + 1, capacity.saturating_mul(2)]);
+            let at = rng.usize_below(ops.len() / 2 + 1);
+            ops.insert(at, Op::Fill { n, tag: rng.below(200) as u8 });
+        }
+        if rng.chance(1, 12) {
+            let at = rng.usize_below(ops.len() + 1);
+            ops.insert(at, Op::ColdRestart);
+        }
         Case { capacity, keys, ops }
     }
 
@@ -370,6 +390,7 @@ impl Scenario for Lru {
         }
         let mut ext_evicted = false; // an eviction through the public eviction API removed >= 1 entry
         let mut reloaded = false;
+        let mut fills_done = 0u32;
         // the all-zero key has been in the tracker at some point of this history
         let mut zero_was_live = false;
 
@@ -536,6 +557,36 @@ impl Scenario for Lru {
                     }
                     m.disk.retain(|k, _| *k == g || *k == p);
                     mutating = false;
+                }
+                Op::Fill { n, tag } => {
+                    for j in 0..*n as usize {
+                        let mut k = [0xDDu8; 9];
+                        k[0] = (j & 0xff) as u8;
+                        k[1] = (j >> 8) as u8;
+                        k[2] ^= (j >> 16) as u8;
+                        k[3] ^= (j >> 24) as u8;
+                        k[7] = *tag;
+                        k[8] = 0xF1;
+                        let r = lru.touch(&k);
+                        // (the keys of the first fill of a run are certainly new; a later fill may repeat them: search)
+                        if fills_done == 0 {
+                            m.touch_fresh(k);
+                        } else {
+                            m.touch(k);
+                        }
+                        if !r && case.capacity > 0 {
+                            viol!("C17.touch.present", "touch_refused", kind, format!("op #{i} fill: touch of fresh key #{j} of {n} returned false (capacity {})", case.capacity));
+                        }
+                    }
+                    fills_done += 1;
+                    ctx.count("fills");
+                    ctx.event(|| json!({"k":"op","op":"fill","n":n,"tag":tag}));
+                }
+                Op::ColdRestart => {
+                    lru = LruManager::new(case.capacity, dir.clone());
+                    m.q.clear();
+                    ctx.count("cold_restarts");
+                    ctx.event(|| json!({"k":"op","op":"cold_restart"}));
                 }
                 Op::Reset => {
                     lru.reset();
